@@ -87,6 +87,16 @@ def run(ctx):
                 ctx.check(c == want and bool(two), 'C11.4', 'list:cap-parse:%s' % want, f_list.loc(e.node), 'cap is the number after ~ (or absent)', 'cap is %s' % c)
     ctx.floor('C11.6', nl, 4, 'show_messages calls from list_command')
 
+    # the all-connections record is complete (same obligation as C06.1) and connection.messages() is the connection's record
+    from .c06 import check_recorded
+    check_recorded(ctx, 'C11.2')
+    check_writers(ctx, 'C11.2', CTRL, 'all_messages', [('Controller.__init__', lambda w: w.fresh and isinstance(w.stmt.value, ast.List)),
+                                                        ('Controller.connection_got_new_message', lambda w: w.kind == 'mutate' and w.via == 'append')], floor=2)
+    check_writers(ctx, 'C11.2', 'core.connection_impl.ConnectionImpl', 'message_list', [('ConnectionImpl.__init__', lambda w: w.fresh and isinstance(w.stmt.value, ast.List)),
+                                                                                         ('ConnectionImpl.message', lambda w: w.kind == 'mutate' and w.via == 'append')], floor=2)
+    f_msgs = repo.func('ConnectionImpl.messages')
+    for p_ in paths_of(repo, f_msgs):
+        ctx.check(p_.outcome[0] == 'return' and norm(p_.outcome[1]) == 'tuple(self.message_list)', 'C11.2', 'connection:messages-returns-record', f_msgs.loc(), 'messages() returns the connection\'s whole record, in order')
     # ---- C11.2 source in _get_matching ------------------------------------------------------------------------
     gpaths = paths_of(repo, f_get, unroll=3 if ctx.tier == 'thorough' else 2)
     rets = [p for p in gpaths if p.outcome[0] == 'return']
